@@ -12,13 +12,13 @@ from harness import coqeval  # noqa: E402
 from quri_parts.core.measurement import (bitwise_commuting_pauli_measurement_circuit,  # noqa: E402
                                          bitwise_pauli_reconstructor_factory)
 from quri_parts.core.operator import PauliLabel  # noqa: E402
-from quri_parts.core.operator.grouping import sorted_injection_grouping  # noqa: E402
+from quri_parts.core.operator.grouping import bitwise_pauli_grouping, sorted_injection_grouping  # noqa: E402
 from quri_parts.core.operator.representation import bsv_bitwise_commute, pauli_label_to_bsv  # noqa: E402
 
 PN = {1: "PX", 2: "PY", 3: "PZ"}
 KN = {"KH": "H", "KSdag": "Sdag", "KS": "S", "KX": "X"}
 IMPORTS = ("From Coq Require Import ZArith NArith List.\nFrom QP Require Import Gates.\n"
-           "From QPM Require Import Pauli Measure Grouping Reconstruct.\nFrom QPG Require Import measrot.\nOpen Scope Z_scope.")
+           "From QPM Require Import Pauli Measure Grouping Reconstruct BitwiseGrouping.\nFrom QPG Require Import measrot.\nOpen Scope Z_scope.")
 DEFS = """
 Definition enc_p (p : pauli) : Z := match p with PX => 1 | PY => 2 | PZ => 3 end.
 Definition enc_l (l : label) : list Z := Z.of_nat (length l) :: flat_map (fun ip => [Z.of_nat (fst ip); enc_p (snd ip)]) l.
@@ -27,6 +27,7 @@ Definition enc_groups (gs : list group) : list Z :=
 Definition enc_k (k : gkind) : Z := match k with KH => 1 | KSdag => 2 | KS => 3 | KX => 4 | _ => 99 end.
 Definition enc_circ (c : list gate) : list Z := flat_map (fun g => [enc_k (gk g); Z.of_nat (hd 0%nat (gqs g))]) c.
 Definition b2z (b : bool) : Z := if b then 1 else 0.
+Definition enc_lgroups (gs : list (list label)) : list Z := flat_map (fun g => (-1) :: flat_map enc_l g) gs.
 Definition rec1 (l : label) (bits : N) : list Z := [reconstruct l bits].
 """
 
@@ -51,7 +52,7 @@ def main():
     for _ in range(n_cases):
         n = rng.choice([2, 3, 4, 6])
         base = rng.sample(range(70), n) if rng.random() < 0.3 else list(range(n))
-        kind = rng.choice(["group", "group", "bsv", "circuit"])
+        kind = rng.choice(["group", "group", "bitwise", "bsv", "circuit"])
         if kind == "group":
             labs, seen = [], set()
             for _ in range(rng.randint(1, 14)):
@@ -64,6 +65,26 @@ def main():
             real_set = {frozenset(tuple(sorted((int(i), int(p)) for i, p in m)) for m in g) for g in real}
             terms.append(f"enc_groups (grouping [{'; '.join(coq_label(l) for l in labs)}])")
             checks.append(("group", real_set, {"labels": labs}))
+        elif kind == "bitwise":
+            # bitwise_pauli_grouping: identity / all-X / all-Y / all-Z labels go to special groups, the rest greedily
+            labs, seen = [], set()
+            for _ in range(rng.randint(1, 14)):
+                r = rng.random()
+                if r < 0.1:
+                    l = []
+                elif r < 0.45:
+                    p = rng.randint(1, 3)
+                    l = [(base[i], p) for i in rng.sample(range(n), rng.randint(1, n))]
+                else:
+                    l = [(base[i], p) for i, p in rand_label(rng, n)]
+                key = tuple(sorted(l))
+                if key not in seen:
+                    seen.add(key)
+                    labs.append(l)
+            real = bitwise_pauli_grouping([PauliLabel(l) for l in labs])
+            real_set = {frozenset(tuple(sorted((int(i), int(p)) for i, p in m)) for m in g) for g in real}
+            terms.append(f"enc_lgroups (bitwise_grouping [{'; '.join(coq_label(l) for l in labs)}])")
+            checks.append(("group", real_set, {"labels": labs, "grouping": "bitwise_pauli_grouping"}))
         elif kind == "bsv":
             l1 = [(base[i], p) for i, p in rand_label(rng, n)]
             l2 = [(base[i], p) for i, p in rand_label(rng, n)]
@@ -137,7 +158,7 @@ def main():
                     i += 1 + 2 * k
             got = {frozenset(g) for g in groups}
             if got != real:
-                res.fail("corr:grouping:sorted_injection", f"model groups {sorted(map(sorted, got))} != implementation "
+                res.fail("corr:grouping:" + info.get("grouping", "sorted_injection"), f"model groups {sorted(map(sorted, got))} != implementation "
                          f"{sorted(map(sorted, real))}", info)
         elif kind == "reconstruct":
             if m != [real]:
